@@ -28,6 +28,21 @@ pub const HOSTILE_DOUBLES: [f64; 14] = [
 ];
 
 pub fn fuzz_bytes(rng: &mut Rng) -> Vec<u8> {
+    let mut v = fuzz_bytes_inner(rng);
+    // one input in eight has a length at a power-of-two boundary (what a fuzzer's max_len or a
+    // buffer size produces): 64, 128, 256, 512, .. 4096, and one byte either side
+    if rng.below(8) == 0 {
+        let target = (64usize << rng.below(7)) + rng.below(3) as usize - 1;
+        while v.len() < target {
+            let more = rng.bytes(target - v.len());
+            v.extend(more);
+        }
+        v.truncate(target);
+    }
+    v
+}
+
+fn fuzz_bytes_inner(rng: &mut Rng) -> Vec<u8> {
     match rng.below(11) {
         10 => {
             // periodic input: a short period repeated (drives the generator into a cycle of
